@@ -48,10 +48,18 @@ def run_case(case, idx=0):
             return Declaration(*[build(x) for x in t["d"]])
         return decls[t["r"]]
 
+    # falsy class objects: a metaclass with __len__ -> 0 or __bool__ -> False (one kind per case, so that
+    # subclasses never meet a metaclass conflict)
+    falsy_meta = {"len": type("LenMeta", (type,), {"__len__": lambda cls: 0}),
+                  "bool": type("BoolMeta", (type,), {"__bool__": lambda cls: False})}
     for k, cd in enumerate(case["classes"]):
         node = n + 2 + k
         pybases = tuple(classes[b] for b in cd["bases"]) or (object,)
-        cls = type("K%d" % k, pybases, {"__module__": "c20"})
+        meta = falsy_meta[cd["falsy"]] if cd.get("falsy") else type
+        if meta is type:
+            cls = type("K%d" % k, pybases, {"__module__": "c20"})      # (inherits a falsy metaclass, if any)
+        else:
+            cls = meta("K%d" % k, pybases, {"__module__": "c20"})
         if cd.get("dtrees") is not None:
             args = [build(x) for x in cd["dtrees"]]
             if cd.get("via") == "classImplements":
@@ -95,6 +103,9 @@ def run_case(case, idx=0):
             rebase_at = None
         if "spec" in d:
             decls.append(objs[d["spec"]])
+        elif d.get("empty"):
+            # the shared empty declaration, obtained through the public API
+            decls.append(directlyProvidedBy(classes[n + 2]()))
         else:
             decls.append(Declaration(*[build(x) for x in d["args"]]))
     if rebase_at is not None:
@@ -130,6 +141,17 @@ def run_case(case, idx=0):
     out["sub"] = [[ob(lambda A=A, B=B: list(A - B)) for B in decls] for A in decls]
     out["add"] = [[ob(lambda A=A, B=B: list(A + B)) for B in decls] for A in decls]
     out["radd"] = [ob(lambda A=A, x=x: list(objs[x] + A)) for A, x in zip(decls, case["radd"])]
+
+    def res(f):
+        """an operation's result, judged as a declaration"""
+        try:
+            R = f()
+        except Exception as e:
+            return {"exc": type(e).__name__}
+        return {"isdecl": isinstance(R, Declaration), "iter": ob(lambda: list(R)),
+                "in": obb(lambda: [x in R for x in allnodes]), "flat": ob(lambda: list(R.flattened()))}
+    out["bare"] = [[res(lambda A=A, x=x: A + objs[x]), res(lambda A=A, x=x: A - objs[x]), res(lambda A=A, x=x: objs[x] + A)]
+                   for A, x in zip(decls, case["radd"])]
     # a second round of iteration after all the operations
     out["iter2"] = [ob(lambda A=A: list(A)) for A in decls]
     out["unchanged"] = snap() == before and out["iter2"] == out["iter"]
